@@ -30,9 +30,11 @@ func C11(tier string) int {
 	var cfgs []Config
 	for _, f := range fam {
 		n0 := len(strings.Split(f.ops0, ","))
-		cfgs = append(cfgs, Config{
-			Name: fmt.Sprintf("domains=(%d ops; %q) slocs=%d vars=%d processors=%d io=%d shared=%q", n0, shortOps(strings.Split(f.ops1, ",")), f.slocs, f.vars, f.np, f.nio, f.shared),
-			Func: "zzC11", Args: []Arg{S(f.ops0), S(f.ops1), I(f.slocs), I(f.vars), I(f.np), I(f.nio), S(f.shared)}, Setup: c15Hooks})
+		for earlier := 0; earlier <= 1; earlier++ {
+			cfgs = append(cfgs, Config{
+				Name: fmt.Sprintf("domains=(%d ops; %q) slocs=%d vars=%d processors=%d io=%d shared=%q earlier_load=%d", n0, shortOps(strings.Split(f.ops1, ",")), f.slocs, f.vars, f.np, f.nio, f.shared, earlier),
+				Func: "zzC11", Args: []Arg{S(f.ops0), S(f.ops1), I(f.slocs), I(f.vars), I(f.np), I(f.nio), S(f.shared), I(earlier)}, Setup: c15Hooks})
+		}
 	}
 	sp := &Spec{
 		ID: "C11", Level: "proof", Tier: tier, Harness: h,
@@ -41,6 +43,7 @@ func C11(tier string) int {
 		Configs:  FilterConfigs(cfgs),
 		Assumptions: []string{
 			"encoding/json is not encoded: marshal followed by unmarshal is taken as the identity on Machine_json / Bondmachine_json (plain exported data); what is decided is Dejsoner(Jsoner(x)) == x and Jsoner(Dejsoner(Jsoner(x))) == Jsoner(x)",
+			"process history: every shape is checked in a fresh process state (package init only) and after an earlier load of another machine in the same process (earlier_load=1), so state the loader keeps between calls is exercised; longer histories are outside",
 			"all scalar fields, strings (ASCII, fixed lengths), bond triples, links, processor/domain indices and shared-object parameters are solver variables; list lengths and opcode names are concrete per configuration",
 			"shared objects are created from their textual form with symbolic parameters, as Add_shared_objects and Dejsoner do; decimal text of a wide parameter is an injective token (strconv.Atoi(strconv.Itoa(x)) == x), narrow ones use exact digits",
 			"excluded from the equality: Conproc.CpID, Arch.Tag, Conproc.SharedHDLOps (generation-time scratch overwritten by Write_verilog before it is read); nil and empty slices are not distinguished",
